@@ -52,6 +52,8 @@ def run(ctx):
   rule_null(ctx)
   rule_nonempty_dict(ctx)
   rule_bool(ctx)
+  rule_window(ctx)
+  ctx.expect("R-C18-WINDOW", 1, "one windowed lattice call")
   ctx.expect("R-C18-EMPTY", 24 + 3, "24 Check bodies + 3 entry points")
   ctx.expect("R-C18-NULL", 7, "seven draws from CURVE_FACTORY")
   ctx.expect("R-C18-BOOL", 24, "24 Check bodies")
@@ -336,3 +338,49 @@ def rule_bool(ctx):
     for e in raises:
       probs.append("Check body raises: %s" % norm(e.node))
     ctx.record(R, b.where(), "bool return", not probs, "; ".join(sorted(set(probs))) or "returns the boolean accumulator `%s` on every path, no raise in the body" % wv)
+
+
+# ------------------------------------------------------------------ WINDOW (no empty sample reaches the lattice code)
+def rule_window(ctx):
+  """hidden_number_problem.GetLattice divides by len(a) (COMMON_POSTFIX weight): every window a[lo:hi] handed to
+  HiddenNumberProblem must be non-empty, i.e. every window start lies below len(a)."""
+  R = "R-C18-WINDOW"
+  repo = ctx.repo
+  # the callee really divides by the sample size
+  g = repo.func("hidden_number_problem", "GetLattice")
+  divides = any(isinstance(n, ast.BinOp) and isinstance(n.op, (ast.Div, ast.FloorDiv, ast.Mod)) and "len(a)" in ast.unparse(n.right) for n in ast.walk(g.node))
+  for b in T.bodies(repo):
+    calls = [e for e in b.events if e.kind == "call" and e.data["name"].endswith("hidden_number_problem:HiddenNumberProblem")]
+    if not calls:
+      continue
+    probs = []
+    for e in calls:
+      for arg in e.data["args"][:2]:
+        a = as_poly(arg).as_atom()
+        if a is None or a.kind != "slice":
+          continue   # whole list: non-empty because the issuer index list is non-empty (R-C18-NONEMPTY-DICT)
+        base, lo, hi, step = a.args
+        # lo = s0 + k*st for the loop over range(s0, stop, st)
+        found = False
+        for info in b.loops():
+          for vis in info.get("visits", []):
+            it = as_poly(vis["iter"]).as_atom()
+            if it is None or it.kind != "range":
+              continue
+            ar = it.args
+            s0, stop, st = (Poly.const(0), ar[0], Poly.const(1)) if len(ar) == 1 else ((ar[0], ar[1], Poly.const(1)) if len(ar) == 2 else ar)
+            if (lo - (s0 + vis["k"] * st)).is_zero():
+              found = True
+              d = stop - sym.mk("len", base)
+              di = d.as_int()
+              s0i = s0.as_int()
+              if s0i is None or s0i < 0:
+                probs.append("window start is not known to be >= 0")
+              if di is None or di > 0:
+                probs.append("window starts range up to %r, which is not bounded by len(%s): a start equal to the length yields an empty window (division by len(a) in GetLattice)"
+                             % (stop, "a/b"))
+        if not found:
+          probs.append("window start %r is not an index of a range loop" % (lo,))
+    if divides or probs:
+      ctx.record(R, b.where(), "every window handed to HiddenNumberProblem is non-empty", not probs, "; ".join(sorted(set(probs))) or
+                 "window starts come from range(0, len(a), size): each start is below len(a)")
